@@ -15,7 +15,7 @@ RULE = (
 ASSUMPTIONS = [
     "well-formed: entries below a key only if that key is an implicit directory or carries a directory entry (Meta.isdir)",
     "an entry with a hash but no Meta is compared as if it had a default Meta (index.info() gives it one); modelled in the reference",
-    "shallow=True: only no-duplicates and per-change classification are checked (its visibility rule is not part of the property)",
+    "shallow=True: no duplicates, per-change classification, and every changed key that exists on one side only with no hashed entry above it on that side is reported (what else shallow leaves out is not judged)",
     "shortcut (hash_only without with_unchanged): reported subset of the reference, every hidden key below a directory entry with equal truthy hash on both sides, and no hidden key is a file entry; hidden representational differences of sub-directory entries are counted",
 ]
 MONITORS = "multiset of (key, type) reported by diff() vs flat reference; rename pair validity and maximality; self-diff / swap / conservation relations on the implementation's own outputs"
@@ -335,6 +335,19 @@ def run_shard(ctx):
                         if want != c.typ:
                             res.violation("misclassified/shallow", f"{ch_key(c)} reported {c.typ}; the two entries the change carries classify as {want}",
                                           case=case, detail=detail)
+                            break
+                    # what shallow may leave out lies inside a hashed entry: a key that exists on one side only, with no hashed entry
+                    # above it on that side, is a change that has to show
+                    def covered(F, k):
+                        return any(k[:i] in F and F[k[:i]][0] for i in range(len(k)))
+
+                    for k in sorted(keys):
+                        if (k in FA) == (k in FB):
+                            continue
+                        res.count("shallow_one_sided_keys_checked")
+                        if not covered(FA if k in FA else FB, k) and k not in rep and (with_unchanged or ref.get(k) != UNCHANGED):
+                            res.violation("change-hidden/shallow/not-inside-a-hashed-entry", f"{'/'.join(k)} exists on one side only and no entry above it on that side carries a hash, "
+                                          "yet the shallow diff does not report it", case=case, detail={**detail, "reported": sorted(("/".join(k2), t2) for k2, t2 in rep.items())[:40], "styles": [str(sty_a), str(sty_b)]})
                             break
                     continue
                 shortcut = hash_only and not with_unchanged
